@@ -1,7 +1,7 @@
 """C01: exit 0 => every copied regular file is byte-identical to its source; nothing of a prior destination survives."""
 from ..common import rmtree as _rmtree
 import os, shutil, subprocess
-from .. import build, dataplane, dataprop, runner
+from .. import build, dataplane, dataprop, runner, tlc
 from ..common import rng, scratch, log, ToolError
 
 def big_file_case(ctx, binary):
@@ -44,6 +44,16 @@ def run(ctx):
     if d.violated != "Exact":
         raise ToolError("non-vacuity: XcpData with BlockJobSingleShot/NoTruncate does not violate Exact")
     ctx.notes["deviation_run_violates"] = d.violated
+    # ---- unbounded part: block partition and retry loops as inductive invariants over ALL lengths / block sizes (Apalache)
+    ap = subprocess.run([os.path.join(tlc.SPEC, "apalache", "apalache.sh"), "180"], stdout=subprocess.PIPE, stderr=subprocess.STDOUT, text=True, timeout=1500)
+    lines = [l for l in ap.stdout.splitlines() if l.startswith("APALACHE ")]
+    if len(lines) != 6:
+        raise ToolError("apalache.sh produced %d result lines: %s" % (len(lines), ap.stdout[-500:]))
+    ctx.notes["unbounded_inductive_checks"] = {"tool": "apalache-mc 0.58 (inductive invariant: Init => IndInv, IndInv /\\ Next => IndInv', IndInv => goal)",
+                                               "obligations": len(lines), "discharged": len([l for l in lines if l.endswith(" OK")]), "lines": lines}
+    for l in lines:
+        if not l.endswith(" OK"):
+            ctx.violation("Layer-A (unbounded) obligation failed: " + l, {"kind": "apalache", "line": l}, sig={"kind": "apalache", "line": l})
     # ---- spec -> impl: every initial state of the model is a scenario for the real binary
     scs, g = dataplane.generate(maxl)
     ctx.tlc("Gen_Data MaxL=%d" % maxl, g)
